@@ -232,13 +232,13 @@ def tree_has_record(t):
 
 def model_expressible(spec):
     """what `heapd.run` (Model/HeapD.lean + the codec of Model/Heap.lean) covers of the schemas with declared defaults: everything but
-    two-dimensional arrays (no row codec in the model) and array defaults that contain records (reading them raises in the library:
-    `copy.deepcopy` of a record trips over `_Record.__getattr__`); those histories are judged by the oracle alone"""
+    two-dimensional arrays (no row codec in the model); those histories are judged by the oracle alone.  Array defaults that hold
+    records are covered since /repo bda6d24 (before, reading them raised: `copy.deepcopy` of a record tripped over `__getattr__`)"""
     for c in spec:
         if c[0] != 'rec':
             continue
         for f in c[2:]:
-            if f[0] == 'arr' and (f[1][0] == 'arr' or (len(f) > 3 and tree_has_record(f[3]))):
+            if f[0] == 'arr' and f[1][0] == 'arr':
                 return False
     return True
 
@@ -737,10 +737,7 @@ def add_declared_defaults(rng, spec, plain=False):
             f = list(f)
             if f[0] == 'arr' and f[1][0] == 'int' and rng.random() < 0.3 and not plain:
                 f[1] = ['arr', f[1], rng.choice([[2, 0, 0], [2, 0, 1], [2, 1, 0]])]
-            if f[0] == 'arr' and f[1][0] == 'recd' and plain:
-                if rng.random() < 0.3:
-                    f = f[:3] + [['l']]            # an empty list as the declared default of an array of records
-            elif f[0] == 'arr' and rng.random() < 0.6:
+            if f[0] == 'arr' and rng.random() < 0.6:
                 f = f[:3] + [['l'] + [gen_tree_for_ety(rng, out + [d], f[1]) for _ in range(rng.choice([1, 1, 2, 3]))]]
             elif f[0] == 'recd' and rng.random() < 0.6:
                 f = f[:2] + [gen_record_tree(rng, out, f[1])]
@@ -1170,7 +1167,7 @@ def check_history(ctx, spec, ops, proto, world=None, defer=None):
         ctx.count(f'{proto}:history-mutating-class-level-default')
     line = model_line(ctx, spec, ops)
     if has_declared_defaults(spec):
-        ctx.count(f'{proto}:' + ('compared-with-heapd.run' if line is not None else 'oracle-only(2-D array or records inside a default)'))
+        ctx.count(f'{proto}:' + ('compared-with-heapd.run' if line is not None else 'oracle-only(2-D array)'))
     if line is None:
         return
     impl = [impl_result_sx(res[0], res[1], res[2:]) for res in results]
